@@ -200,3 +200,29 @@ Fixpoint insert_by (T : lextab) (x : item) (l : list item) : list item :=
   end.
 Definition sorted_by (T : lextab) (l : list item) : list item :=
   fold_right (insert_by T) [] l.
+
+(* ---- boolean checks used by the correspondence run (tools/c14.py) ---- *)
+Definition check_item (T : lextab) (a : item) (st : list Z) : bool :=
+  list_eqb Z.eqb (sort_tuple T a) st.
+
+(* observed on the implementation for a pair: orderitems, ==, !=, <, <=, >, >=,
+   hash(a) == hash(b) *)
+Definition check_pair (T : lextab) (a b : item) (o : Z) (oeq one olt ole ogt oge ohash : bool)
+  : list bool :=
+  [ orderitems T a b =? o;
+    Bool.eqb (eq T a b) oeq; Bool.eqb (negb (eq T a b)) one;
+    Bool.eqb (lt T a b) olt; Bool.eqb (le T a b) ole;
+    Bool.eqb (gt T a b) ogt; Bool.eqb (ge T a b) oge;
+    Bool.eqb (item_eqb a b) oeq;              (* == is structural identity *)
+    implb (item_eqb a b) ohash ].             (* equal items, equal hashes *)
+
+Definition check_sorted (T : lextab) (l obs : list item) : bool :=
+  list_eqb item_eqb (sorted_by T l) obs.
+
+Definition check_args (T : lextab) (a b : list sent) (oeq olt ole ogt oge ohash : bool) : list bool :=
+  let x := {| a_title := None; a_seq := a |} in
+  let y := {| a_title := None; a_seq := b |} in
+  let z := ord_arg T x y in
+  [ Bool.eqb (z =? 0) oeq; Bool.eqb (z <? 0) olt; Bool.eqb (z <=? 0) ole;
+    Bool.eqb (0 <? z) ogt; Bool.eqb (0 <=? z) oge;
+    Bool.eqb (list_eqb sent_eqb a b) oeq; implb (list_eqb sent_eqb a b) ohash ].
